@@ -234,6 +234,7 @@ def case_model(rng, tier, i, degen=False, force_name=None, force_mode=None, forc
         opts.pop('eigenvalue_floor', None)       # the documented default floor (1e-10)
         if force_mode == 'fewframes':
             iters = 1                            # predict right after the first M-step (later M-steps assert on their own input)
+            opts.pop('saliency', None)           # (a float64 saliency would lift the whole M-step to double precision)
     _MCOUNT[0] += 1
     single = _MCOUNT[0] % 4 == 0 and (mode in (None, 'zero', 'repeat', 'rank1', 'fewframes'))
     if force_single is not None:
